@@ -1,10 +1,11 @@
 #!/bin/bash
-# Builds the harness (three runtime flavours) offline from files on disk, self-tests the
+# Builds the harness (three runtime flavours, plus the tokio one with debug assertions on) offline from files on disk, self-tests the
 # executor/explorer and binds the runtime shims to the real runtimes.
 set -eu
 cd /verif/mc
 export CARGO_NET_OFFLINE=true
 CARGO_TARGET_DIR=/verif/.target cargo build --release --offline --no-default-features --features rt-tokio 2>&1 | tail -2
+CARGO_TARGET_DIR=/verif/.target cargo build --profile dbg --offline --no-default-features --features rt-tokio 2>&1 | tail -2
 CARGO_TARGET_DIR=/verif/.target-async cargo build --release --offline --no-default-features --features rt-async 2>&1 | tail -2
 CARGO_TARGET_DIR=/verif/.target-smol cargo build --release --offline --no-default-features --features rt-smol 2>&1 | tail -2
 /verif/.target/release/mc selftest
